@@ -186,3 +186,32 @@ def layer_fault_choices(shape, maxf=1):
             d.setdefault(a[0], {})[a[1]] = a[2]
             d.setdefault(b[0], {})[b[1]] = b[2]
             yield d
+
+
+def _triple(line):
+    try:
+        a, b, c = map(int, line.strip().split())
+        return (a, b, c)
+    except ValueError:
+        return None
+
+
+def spoofed_header(stderr_bytes):
+    """True when the first line of a child's stderr that parses as three
+    integers is *not* the header of the report the child wrote last (the
+    report = header + nfail + nerr lines reaching exactly to the end)."""
+    lines = stderr_bytes.splitlines()
+    first = None
+    for i, ln in enumerate(lines):
+        if _triple(ln) is not None:
+            first = i
+            break
+    if first is None:
+        return False
+    real = None
+    for i in range(len(lines) - 1, -1, -1):
+        t = _triple(lines[i])
+        if t is not None and i + 1 + t[1] + t[2] == len(lines):
+            real = i
+            break
+    return real is not None and real != first
